@@ -17,6 +17,7 @@ def main(tier, seed):
     c17lang.run(chk, tier, seed)
     from checks import fixed_clauses
     fixed_clauses.case_of_literal_text(chk)
+    fixed_clauses.windows_spelling_pairs(chk)
     fixed_clauses.windows_bytes_twins(chk)
     return chk.finish(
         explanation=('flag-algebra contracts and the statement-level lemmas are proved for all 2^64 flag words and both platforms; the language-level '
